@@ -407,7 +407,12 @@ func init() {
 		}
 		for i := 0; i < scale(2500, 25000); i++ {
 			var l []string
-			for j := rng.Intn(13); j > 0; j-- {
+			n := rng.Intn(13)
+			if i%25 == 0 {
+				// boundary sizes (batching, chunking and buffer thresholds), with the odd entries anywhere incl. the tail
+				n = pick3(15, 16, 17, 31, 32, 33, 63, 64, 65, 66, 67, 71, 100, 127, 128, 129, 130, 255, 256, 257, 300)
+			}
+			for j := n; j > 0; j-- {
 				if len(l) > 0 && rng.Intn(5) == 0 {
 					l = append(l, l[rng.Intn(len(l))])
 				} else {
@@ -846,6 +851,8 @@ func readOffsetError(msg string) (lex string, hasLex bool, off int, hasOff bool)
 	return
 }
 
+func pick3(xs ...int) int { return xs[rng.Intn(len(xs))] }
+
 func isIDByte(c byte) bool {
 	return c >= 'A' && c <= 'Z' || c >= 'a' && c <= 'z' || c >= '0' && c <= '9' || c == '-' || c == '.'
 }
@@ -946,6 +953,17 @@ func init() {
 				bad, kind = pick([]string{"LicenseRef-", "DocumentRef-", "DocumentRef-x:LicenseRef-"})+pick([]string{"", " ", "!", ")"}), "missing"
 			case 1:
 				bad, kind = pick(strays), "missing"
+			case 2:
+				// an unknown id of a boundary length (messages that abbreviate or copy into fixed buffers)
+				n := pick3(15, 16, 17, 31, 32, 33, 63, 64, 65, 66, 100, 127, 128, 129, 255, 256, 257, 1000)
+				stem := pick([]string{"licenseref-scancode-proprietary-license-see-the-eula-in-the-distribution", "x", "unknown-license.v", "Zz9-"})
+				for len(stem) < n {
+					stem += pick([]string{"a", "b-", "c.", "9", "Q"})
+				}
+				bad = stem[:n]
+				if implValid(bad) {
+					bad += "x"
+				}
 			default:
 				bad = pick(unknowns)
 			}
